@@ -1,12 +1,19 @@
 #!/usr/bin/env python3
 """Translator for constants and finite tables: /repo's working tree -> lean/Zlink/Gen/Consts.lean.
 
-Regex-level reading of named constants. Run by bin/check on every run; the Lean theorems that depend on
-these values are then re-checked by `lake build` against what the code says now. Exits non-zero if a
-pattern no longer matches (the run then reports the dependent theorems as no longer checked).
-The output file is only rewritten when its content changes, so unchanged sources keep lake's cache.
+Each table is read in up to two ways: (1) from the source text (regex-level reading of named constants and
+literal tables); (2) when the text no longer has the expected shape (a table rebuilt by a `const fn`, flags
+written in a loop ...) and the table is observable, from the *behaviour* of the compiled code: the harness
+binary `zv tables` is built against /repo's working tree and asked. A table that can be read in neither way gets
+a placeholder definition (empty), so that `Gen/Consts.lean` still compiles and exactly the theorems that depend
+on that table stop checking - no other property is affected. How each table was obtained is written to
+`lean/Zlink/Gen/status.json` and shown in the evidence.
+
+Run by bin/check on every run; the Lean theorems that depend on these values are then re-checked by
+`lake build` against what the code says now. The output file is only rewritten when its content changes,
+so unchanged sources keep lake's cache.
 """
-import re, sys, os
+import re, sys, os, json, subprocess, shutil
 
 REPO = os.environ.get("ZLINK_REPO", "/repo")
 OUT = os.path.join(os.path.dirname(os.path.dirname(os.path.abspath(__file__))), "lean", "Zlink", "Gen", "Consts.lean")
@@ -23,33 +30,171 @@ def const_expr(expr):
     return int(eval(expr.replace("_", "")))
 
 
-def main():
-    errs = []
-    out = ["/-! GENERATED by /verif/extract/extract.py from /repo's working tree — do not edit. -/", "namespace Gen"]
-    # --- connection/mod.rs: BUFFER_SIZE, MAX_BUFFER_SIZE (production and hook value)
+VERIF = os.path.dirname(os.path.dirname(os.path.abspath(__file__)))
+_probe = None
+
+
+def probe():
+    """`zv tables` of the harness built against the current tree: {key: [tokens]} (None if it cannot be built)."""
+    global _probe
+    if _probe is not None:
+        return _probe or None
+    _probe = {}
+    hdir = os.path.join(VERIF, "harness")
     try:
-        src = read("zlink-core/src/connection/mod.rs")
-        m = re.search(r"const BUFFER_SIZE: usize = ([^;]+);", src)
-        out.append(f"def bufferSize : Nat := {const_expr(m.group(1))}")
-        prod = re.search(r"#\[cfg\(not\(zlink_verif\)\)\]\s*(?:pub\(crate\) )?const MAX_BUFFER_SIZE: usize = ([^;]+);", src)
-        hook = re.search(r"#\[cfg\(zlink_verif\)\]\s*(?:pub\(crate\) )?const MAX_BUFFER_SIZE: usize = ([^;]+);", src)
-        out.append(f"def maxBufferSizeProd : Nat := {const_expr(prod.group(1))}")
-        out.append(f"def maxBufferSizeHook : Nat := {const_expr(hook.group(1))}")
-    except Exception as e:  # noqa
-        errs.append(f"connection/mod.rs constants: {e!r}")
-    for extra in EXTRA:
-        try:
-            out.extend(extra())
-        except Exception as e:  # noqa
-            errs.append(f"{extra.__name__}: {e!r}")
+        lock = os.path.join(hdir, "Cargo.lock")
+        if not os.path.exists(lock):
+            shutil.copy(os.path.join(REPO, "Cargo.lock"), lock)
+        env = dict(os.environ, CARGO_NET_OFFLINE="true")
+        for pkg in ("zv", "zvg"):
+            r = subprocess.run(["cargo", "build", "--release", "--offline", "-p", pkg], cwd=hdir, env=env,
+                               stdout=subprocess.PIPE, stderr=subprocess.STDOUT, timeout=3000)
+            if r.returncode != 0:
+                continue
+            r = subprocess.run([os.path.join(hdir, "target", "release", pkg), "tables"], stdout=subprocess.PIPE,
+                               stderr=subprocess.PIPE, timeout=120)
+            if r.returncode != 0:
+                continue
+            for line in r.stdout.decode().splitlines():
+                t = line.split()
+                if t:
+                    _probe[t[0]] = t[1:]
+    except Exception:  # noqa
+        _probe = {}
+    return _probe or None
+
+
+def escape_table_behaviour():
+    pr = probe()
+    if not pr or "esc" not in pr or "hex" not in pr:
+        raise ValueError("behavioural probe unavailable")
+    vals = [int(x) for x in pr["esc"]]
+    hexd = [int(x) for x in pr["hex"]]
+    if len(vals) != 256 or len(hexd) != 16 or 255 in vals:
+        raise ValueError("behavioural escape table not understood")
+    rows = ["  " + ", ".join(str(v) for v in vals[i:i + 16]) for i in range(0, 256, 16)]
+    return ["def escapeTable : List Nat := [\n" + ",\n".join(rows) + "]",
+            "def hexDigits : List Nat := [" + ", ".join(map(str, hexd)) + "]"]
+
+
+def call_flags_behaviour():
+    pr = probe()
+    if not pr or "flags-ser" not in pr or "flags-de" not in pr:
+        raise ValueError("behavioural probe unavailable")
+    return ["def callFlagsSer : List String := [" + ", ".join(f'"{x}"' for x in pr["flags-ser"]) + "]",
+            "def callFlagsDe : List String := [" + ", ".join(f'"{x}"' for x in pr["flags-de"]) + "]"]
+
+
+def pairs(tokens):
+    return [tuple(t.split("=", 1)) for t in tokens]
+
+
+def introspect_tables_behaviour():
+    pr = probe()
+    if not pr or "intro-atoms" not in pr or "intro-ctors" not in pr:
+        raise ValueError("behavioural probe unavailable")
+    atoms, ctors = pairs(pr["intro-atoms"]), pairs(pr["intro-ctors"])
+    if len(atoms) < 20 or len(ctors) < 10:
+        raise ValueError("behavioural introspection tables look wrong")
+    return ["def introAtoms : List (List UInt8 × List UInt8) := [" + ", ".join(f"({bl(a)}, {bl(b)})" for a, b in atoms) + "]",
+            "def introCtors : List (List UInt8 × List UInt8) := [" + ", ".join(f"({bl(a)}, {bl(b)})" for a, b in ctors) + "]",
+            "/-- the same tables, readable -/",
+            "def introAtomsText : List (String × String) := [" + ", ".join(f'("{a}", "{b}")' for a, b in atoms) + "]",
+            "def introCtorsText : List (String × String) := [" + ", ".join(f'("{a}", "{b}")' for a, b in ctors) + "]"]
+
+
+def codegen_tables_behaviour():
+    pr = probe()
+    if not pr or "cg-keywords" not in pr or "cg-notraw" not in pr or "cg-prim" not in pr:
+        raise ValueError("behavioural probe unavailable")
+    kws, notraw = pr["cg-keywords"], pr["cg-notraw"]
+    # the source lists the non-raw keywords in this order
+    order = ["self", "Self", "super", "crate"]
+    notraw = [k for k in order if k in notraw] + [k for k in notraw if k not in order]
+    rows = []
+    for t in pr["cg-prim"]:
+        fn_k, ty = t.split("=", 1)
+        fn, k = fn_k.split(":", 1)
+        rows.append(f"({bl(fn)}, {bl(k)}, {bl(ty.replace('~', ' '))})")
+    if len(kws) < 30 or len(rows) != 20:
+        raise ValueError("behavioural codegen tables look wrong")
+    return ["def rustKeywords : List (List UInt8) := [" + ", ".join(bl(k) for k in kws) + "]",
+            "def notRawKeywords : List (List UInt8) := [" + ", ".join(bl(k) for k in notraw) + "]",
+            "def cgPrimRows : List (List UInt8 × List UInt8 × List UInt8) := [" + ", ".join(rows) + "]"]
+
+
+def idl_tables_behaviour():
+    pr = probe()
+    if not pr or not all(k in pr for k in ("idl-prims", "idl-kws", "idl-punct", "idl-display")):
+        raise ValueError("behavioural probe unavailable")
+    prims = pairs(pr["idl-prims"])
+    kws = sorted(pr["idl-kws"])
+    punct = sorted(pr["idl-punct"])
+    disp = [(a, b.replace("_", " ")) for a, b in pairs(pr["idl-display"])]
+    if len(prims) < 3 or len(kws) < 3:
+        raise ValueError("behavioural IDL tables look wrong")
+    return ["def idlPrimitives : List (List UInt8 × List UInt8) := [" + ", ".join(f"({bl(a)}, {bl(b)})" for a, b in prims) + "]",
+            "def idlKeywords : List (List UInt8) := [" + ", ".join(bl(k) for k in kws) + "]",
+            "def idlPunct : List (List UInt8) := [" + ", ".join(bl(k) for k in punct) + "]",
+            "def idlDisplayKeywords : List (List UInt8 × List UInt8) := [" + ", ".join(f"({bl(a)}, {bl(b)})" for a, b in disp) + "]"]
+
+
+# placeholder definitions (right types, no content): the file still compiles, the dependent theorems do not check
+PLACEHOLDER = {
+    "buffer_consts": ["def bufferSize : Nat := 0", "def maxBufferSizeProd : Nat := 0", "def maxBufferSizeHook : Nat := 0"],
+    "escape_table": ["def escapeTable : List Nat := []", "def hexDigits : List Nat := []"],
+    "service_api": ['def svcInterface : String := ""',
+                    "def svcErrors : List (String × Option (List (String × String))) := []",
+                    "def svcMethods : List (String × String) := []"],
+    "call_flags": ["def callFlagsSer : List String := []", "def callFlagsDe : List String := []"],
+    "codegen_tables": ["def rustKeywords : List (List UInt8) := []", "def notRawKeywords : List (List UInt8) := []",
+                       "def cgPrimRows : List (List UInt8 × List UInt8 × List UInt8) := []"],
+    "introspect_tables": ["def introAtoms : List (List UInt8 × List UInt8) := []", "def introCtors : List (List UInt8 × List UInt8) := []",
+                          "def introAtomsText : List (String × String) := []", "def introCtorsText : List (String × String) := []"],
+    "idl_tables": ["def idlPrimitives : List (List UInt8 × List UInt8) := []", "def idlKeywords : List (List UInt8) := []",
+                   "def idlPunct : List (List UInt8) := []", "def idlDisplayKeywords : List (List UInt8 × List UInt8) := []"],
+}
+
+
+def buffer_consts():
+    src = read("zlink-core/src/connection/mod.rs")
+    m = re.search(r"const BUFFER_SIZE: usize = ([^;]+);", src)
+    prod = re.search(r"#\[cfg\(not\(zlink_verif\)\)\]\s*(?:pub\(crate\) )?const MAX_BUFFER_SIZE: usize = ([^;]+);", src)
+    hook = re.search(r"#\[cfg\(zlink_verif\)\]\s*(?:pub\(crate\) )?const MAX_BUFFER_SIZE: usize = ([^;]+);", src)
+    return [f"def bufferSize : Nat := {const_expr(m.group(1))}",
+            f"def maxBufferSizeProd : Nat := {const_expr(prod.group(1))}",
+            f"def maxBufferSizeHook : Nat := {const_expr(hook.group(1))}"]
+
+
+def main():
+    out = ["/-! GENERATED by /verif/extract/extract.py from /repo's working tree — do not edit. -/", "namespace Gen"]
+    status = {}
+    for name, readers in TABLES:
+        got, why = None, []
+        for how, fn in readers:
+            if os.environ.get("ZLINK_EXTRACT_PREFER") == "behaviour" and how == "source" and len(readers) > 1:
+                continue  # self-test of the behavioural readers
+            try:
+                got = fn()
+                status[name] = how
+                break
+            except Exception as e:  # noqa
+                why.append(f"{how}: {e!r}")
+        if got is None:
+            got = PLACEHOLDER[name]
+            status[name] = "FAILED (" + "; ".join(why) + ")"
+        elif why:
+            status[name] += " (" + "; ".join(why) + ")"
+        out.extend(got)
     out.append("end Gen")
     text = "\n".join(out) + "\n"
-    if errs:
-        sys.stderr.write("extract.py: " + "; ".join(errs) + "\n")
-        sys.exit(1)
     old = open(OUT).read() if os.path.exists(OUT) else None
     if old != text:
         open(OUT, "w").write(text)
+    json.dump(status, open(os.path.join(os.path.dirname(OUT), "status.json"), "w"), indent=1)
+    failed = [k for k, v in status.items() if v.startswith("FAILED")]
+    if failed:
+        sys.stderr.write("extract.py: tables not extracted: " + ", ".join(f"{k}: {status[k]}" for k in failed) + "\n")
     return 0
 
 
@@ -128,13 +273,19 @@ def service_api():
     mm = re.search(r"pub enum Method<'a>\s*\{(.*?)\n\}", src, re.S)
     names = re.findall(r'#\[serde\(rename = "([^"]+)"\)\]\s*([A-Za-z]+)', mm.group(1))
     out.append("def svcMethods : List (String × String) := [" + ", ".join(f'("{a}", "{b}")' for a, b in names) + "]")
+    return out
+
+
+def call_flags():
+    """call/ser.rs, call/de.rs: the names of the three call flags as written and as recognised."""
     ser = read("zlink-core/src/call/ser.rs")
     de = read("zlink-core/src/call/de.rs")
     sflags = re.findall(r'serialize_entry\("([a-z]+)", &true\)', ser)
     dflags = re.findall(r'^\s*"([a-z]+)" => \{', de, re.M)
-    out.append("def callFlagsSer : List String := [" + ", ".join(f'"{x}"' for x in sflags) + "]")
-    out.append("def callFlagsDe : List String := [" + ", ".join(f'"{x}"' for x in dflags) + "]")
-    return out
+    if len(sflags) != 3 or len(dflags) != 3:
+        raise ValueError(f"flag names not found in the expected shape: {sflags} {dflags}")
+    return ["def callFlagsSer : List String := [" + ", ".join(f'"{x}"' for x in sflags) + "]",
+            "def callFlagsDe : List String := [" + ", ".join(f'"{x}"' for x in dflags) + "]"]
 
 
 def bl(s):
@@ -225,7 +376,16 @@ def idl_tables():
             "def idlDisplayKeywords : List (List UInt8 × List UInt8) := [" + ", ".join(f"({bl(a)}, {bl(b)})" for a, b in disp) + "]"]
 
 
-EXTRA = [escape_table, service_api, codegen_tables, introspect_tables, idl_tables]
+TABLES = [
+    ("buffer_consts", [("source", buffer_consts)]),
+    ("escape_table", [("source", escape_table), ("behaviour", escape_table_behaviour)]),
+    ("service_api", [("source", service_api)]),
+    ("call_flags", [("source", call_flags), ("behaviour", call_flags_behaviour)]),
+    ("codegen_tables", [("source", codegen_tables), ("behaviour", codegen_tables_behaviour)]),
+    # the impls may be written by hand or by any macro: what `<T as Type>::TYPE` *is* decides, the text is the fallback
+    ("introspect_tables", [("behaviour", introspect_tables_behaviour), ("source", introspect_tables)]),
+    ("idl_tables", [("source", idl_tables), ("behaviour", idl_tables_behaviour)]),
+]
 
 if __name__ == "__main__":
     sys.exit(main())
